@@ -362,6 +362,9 @@ func (sk *SpaceKeeper) StopWS(sid string) error {
 	}
 
 	sk.queue.Delete(sid)
+	if cws, ok := sk.workSpaceIndex[allState].Get(sid); ok {
+		cws.stopSeq++ // voids requests still in the channel or already popped by the plotter
+	}
 
 	if ws, ok := sk.workSpaceIndex[engine.Plotting].Get(sid); ok {
 		// known that there's no more than one plotting workSpace at the same time
@@ -396,6 +399,9 @@ func (sk *SpaceKeeper) RemoveWS(sid string) error {
 	}
 
 	sk.queue.Delete(sid)
+	if cws, ok := sk.workSpaceIndex[allState].Get(sid); ok {
+		cws.stopSeq++ // voids requests still in the channel or already popped by the plotter
+	}
 
 	if ws, ok = sk.workSpaceIndex[engine.Registered].Get(sid); !ok {
 		if ws, ok = sk.workSpaceIndex[engine.Ready].Get(sid); !ok {
@@ -420,6 +426,9 @@ func (sk *SpaceKeeper) DeleteWS(sid string) error {
 	}
 
 	sk.queue.Delete(sid)
+	if cws, ok := sk.workSpaceIndex[allState].Get(sid); ok {
+		cws.stopSeq++ // voids requests still in the channel or already popped by the plotter
+	}
 
 	if ws, ok = sk.workSpaceIndex[engine.Registered].Get(sid); !ok {
 		if ws, ok = sk.workSpaceIndex[engine.Ready].Get(sid); !ok {
